@@ -48,6 +48,8 @@ ASSUMPTIONS = ['mixed numeric/text lists are not generated (the documentation '
 
 NUM = [-1, 0, 2, 3, 0.1, 0.5, 2.5, None, 'MISSING']
 TXT = ['a', 'b', 'c', None, '']
+# small magnitudes: true variances far below 1e-9
+TINY = [0.0001, 0.00015, 0.00003, 1e-05, 0, None]
 STATS = ('count', 'total', 'min', 'max', 'mean', 'variance', 'variance-n',
          'standard-deviation', 'standard-deviation-n', 'median')
 CASE_CPU_SECONDS = 120.0
@@ -88,8 +90,8 @@ def cases(tier):
     for lo in range(0, total, 100):
         yield {'dom': 'order', 'lo': lo, 'hi': min(total, lo + 100)}
     maxn = 5 if tier == 'quick' else 7
-    for dom, alpha in (('num', NUM), ('txt', TXT)):
-        for n in range(1, maxn + 1):
+    for dom, alpha in (('num', NUM), ('txt', TXT), ('tiny', TINY)):
+        for n in range(1, (maxn if dom != 'tiny' else maxn - 1) + 1):
             if n <= 2:
                 yield {'dom': dom, 'n': n, 'pre': []}
             else:
@@ -185,7 +187,7 @@ def run_order(res, case):
 
 
 def lists(case):
-    alpha = NUM if case['dom'] == 'num' else TXT
+    alpha = {'num': NUM, 'txt': TXT, 'tiny': TINY}[case['dom']]
     pre = [alpha[i] for i in case['pre']]
     for rest in itertools.product(alpha, repeat=case['n'] - len(pre)):
         yield pre + list(rest)
